@@ -1,18 +1,262 @@
-import sys, time, hashlib
-sys.path.insert(0,'/repo')
-p = 2**256-2**32-977; n = 0xFFFFFFFFFFFFFFFFFFFFFFFFFFFFFFFEBAAEDCE6AF48A03BBFD25E8CD0364141
-G = (0x79BE667EF9DCBBAC55A06295CE870B07029BFCDB2DCE28D959F2815B16F81798, 0x483ADA7726A3C4655DA4FBFC0E1108A8FD17B448A68554199C47D08FFB10D4B8)
-def add(P,Q):
-    if P is None: return Q
-    if Q is None: return P
-    if P[0]==Q[0]:
-        if (P[1]+Q[1])%p==0: return None
-        l = 3*P[0]*P[0]*pow(2*P[1],-1,p)%p
-    else: l = (Q[1]-P[1])*pow(Q[0]-P[0],-1,p)%p
-    x=(l*l-P[0]-Q[0])%p; return (x,(l*(P[0]-x)-P[1])%p)
-def mul(k,P):
-    R=None
+"""Reference secp256k1 arithmetic, ECDSA (sign with a given nonce, verify, public-key recovery), SEC1 point
+coding (compressed / uncompressed / hybrid) and strict DER.  Pure Python integers; never imports bitcoin.*"""
+
+P = 2 ** 256 - 2 ** 32 - 977
+N = 0xFFFFFFFFFFFFFFFFFFFFFFFFFFFFFFFEBAAEDCE6AF48A03BBFD25E8CD0364141
+GX = 0x79BE667EF9DCBBAC55A06295CE870B07029BFCDB2DCE28D959F2815B16F81798
+GY = 0x483ADA7726A3C4655DA4FBFC0E1108A8FD17B448A68554199C47D08FFB10D4B8
+G = (GX, GY)
+HALF_N = N // 2
+
+
+# ---- Jacobian arithmetic (a = 0) ------------------------------------------------------------------------------
+def _jdbl(p):
+    X, Y, Z = p
+    if Y == 0 or Z == 0:
+        return (0, 1, 0)
+    S = 4 * X * Y * Y % P
+    M = 3 * X * X % P
+    X3 = (M * M - 2 * S) % P
+    Y3 = (M * (S - X3) - 8 * pow(Y, 4, P)) % P
+    Z3 = 2 * Y * Z % P
+    return (X3, Y3, Z3)
+
+
+def _jadd(p, q):
+    if p[2] == 0:
+        return q
+    if q[2] == 0:
+        return p
+    X1, Y1, Z1 = p
+    X2, Y2, Z2 = q
+    Z1Z1 = Z1 * Z1 % P
+    Z2Z2 = Z2 * Z2 % P
+    U1 = X1 * Z2Z2 % P
+    U2 = X2 * Z1Z1 % P
+    S1 = Y1 * Z2 * Z2Z2 % P
+    S2 = Y2 * Z1 * Z1Z1 % P
+    if U1 == U2:
+        if S1 != S2:
+            return (0, 1, 0)
+        return _jdbl(p)
+    H = (U2 - U1) % P
+    R = (S2 - S1) % P
+    H2 = H * H % P
+    H3 = H * H2 % P
+    U1H2 = U1 * H2 % P
+    X3 = (R * R - H3 - 2 * U1H2) % P
+    Y3 = (R * (U1H2 - X3) - S1 * H3) % P
+    Z3 = H * Z1 * Z2 % P
+    return (X3, Y3, Z3)
+
+
+def _to_affine(p):
+    if p[2] == 0:
+        return None
+    zi = pow(p[2], -1, P)
+    zi2 = zi * zi % P
+    return (p[0] * zi2 % P, p[1] * zi2 * zi % P)
+
+
+def _to_j(p):
+    return (0, 1, 0) if p is None else (p[0], p[1], 1)
+
+
+_GTAB = None
+
+
+def _gtab():
+    global _GTAB
+    if _GTAB is None:
+        tab = []
+        base = _to_j(G)
+        for i in range(64):
+            row = [(0, 1, 0)]
+            acc = (0, 1, 0)
+            for j in range(1, 16):
+                acc = _jadd(acc, base)
+                row.append(acc)
+            tab.append(row)
+            for _ in range(4):
+                base = _jdbl(base)
+        _GTAB = tab
+    return _GTAB
+
+
+def _jmul_g(k):
+    k %= N
+    acc = (0, 1, 0)
+    tab = _gtab()
+    i = 0
     while k:
-        if k&1: R=add(R,P)
-        P=add(P,P); k>>=1
-    return R
+        d = k & 15
+        if d:
+            acc = _jadd(acc, tab[i][d])
+        k >>= 4
+        i += 1
+    return acc
+
+
+def _jmul(k, p):
+    k %= N
+    acc = (0, 1, 0)
+    q = _to_j(p)
+    while k:
+        if k & 1:
+            acc = _jadd(acc, q)
+        q = _jdbl(q)
+        k >>= 1
+    return acc
+
+
+def mul(k, p=None):
+    """k * p (affine, None = infinity); p defaults to G"""
+    if p is None or p == G:
+        return _to_affine(_jmul_g(k))
+    return _to_affine(_jmul(k, p))
+
+
+def add(p, q):
+    return _to_affine(_jadd(_to_j(p), _to_j(q)))
+
+
+def neg(p):
+    return None if p is None else (p[0], (-p[1]) % P)
+
+
+def on_curve(p):
+    x, y = p
+    return 0 <= x < P and 0 <= y < P and (y * y - x * x * x - 7) % P == 0
+
+
+def lift_x(x, odd):
+    if not 0 <= x < P:
+        return None
+    y2 = (x * x * x + 7) % P
+    y = pow(y2, (P + 1) // 4, P)
+    if y * y % P != y2:
+        return None
+    if (y & 1) != (1 if odd else 0):
+        y = P - y
+    return (x, y)
+
+
+# ---- SEC1 -----------------------------------------------------------------------------------------------------
+def encode_point(p, compressed):
+    x, y = p
+    if compressed:
+        return bytes([2 + (y & 1)]) + x.to_bytes(32, 'big')
+    return b'\x04' + x.to_bytes(32, 'big') + y.to_bytes(32, 'big')
+
+
+def decode_point(b):
+    """SEC1 octet string -> point or None (compressed, uncompressed, hybrid with matching parity)"""
+    b = bytes(b)
+    if len(b) == 33 and b[0] in (2, 3):
+        return lift_x(int.from_bytes(b[1:], 'big'), b[0] == 3)
+    if len(b) == 65 and b[0] in (4, 6, 7):
+        x = int.from_bytes(b[1:33], 'big')
+        y = int.from_bytes(b[33:], 'big')
+        if not on_curve((x, y)):
+            return None
+        if b[0] == 6 and y & 1:
+            return None
+        if b[0] == 7 and not y & 1:
+            return None
+        return (x, y)
+    return None
+
+
+def pubkey(secret, compressed=True):
+    return encode_point(mul(secret), compressed)
+
+
+# ---- ECDSA ----------------------------------------------------------------------------------------------------
+def digest_int(h):
+    return int.from_bytes(h, 'big')
+
+
+def sign_with_nonce(secret, h, k):
+    """-> (r, s) without low-S normalisation, or None when r or s is zero"""
+    R = mul(k)
+    r = R[0] % N
+    if r == 0:
+        return None
+    s = pow(k, -1, N) * (digest_int(h) + r * secret) % N
+    if s == 0:
+        return None
+    return r, s
+
+
+def low_s(r, s):
+    return (r, N - s) if s > HALF_N else (r, s)
+
+
+def verify(pub_point, h, r, s):
+    if pub_point is None:
+        return False
+    if not (1 <= r < N and 1 <= s < N):
+        return False
+    w = pow(s, -1, N)
+    u1 = digest_int(h) * w % N
+    u2 = r * w % N
+    pt = _to_affine(_jadd(_jmul_g(u1), _jmul(u2, pub_point)))
+    if pt is None:
+        return False
+    return pt[0] % N == r
+
+
+def recover(recid, r, s, h):
+    """SEC1 4.1.6 public-key recovery -> point or None"""
+    if not (1 <= r < N and 1 <= s < N):
+        return None
+    x = r + (recid >> 1) * N
+    if x >= P:
+        return None
+    R = lift_x(x, recid & 1)
+    if R is None:
+        return None
+    ri = pow(r, -1, N)
+    e = digest_int(h) % N
+    q = _jadd(_jmul(s * ri % N, R), _jmul_g((-e * ri) % N))
+    return _to_affine(q)
+
+
+# ---- strict DER (BIP66 shape without the hash-type byte) --------------------------------------------------------
+def _der_int(v):
+    b = v.to_bytes((v.bit_length() + 7) // 8 or 1, 'big')
+    if b[0] & 0x80:
+        b = b'\x00' + b
+    return b'\x02' + bytes([len(b)]) + b
+
+
+def der_encode(r, s):
+    body = _der_int(r) + _der_int(s)
+    assert len(body) < 0x80
+    return b'\x30' + bytes([len(body)]) + body
+
+
+def der_parse_strict(sig):
+    """-> (r, s) for a strictly DER-encoded ECDSA signature (minimal lengths, minimal positive integers, no trailing
+    bytes), else None"""
+    sig = bytes(sig)
+    if len(sig) < 8 or len(sig) > 72 or sig[0] != 0x30 or sig[1] != len(sig) - 2:
+        return None
+    pos = 2
+    vals = []
+    for _ in range(2):
+        if pos + 2 > len(sig) or sig[pos] != 0x02:
+            return None
+        l = sig[pos + 1]
+        if l == 0 or l & 0x80 or pos + 2 + l > len(sig):
+            return None
+        body = sig[pos + 2:pos + 2 + l]
+        if body[0] & 0x80:
+            return None
+        if l > 1 and body[0] == 0 and not body[1] & 0x80:
+            return None
+        vals.append(int.from_bytes(body, 'big'))
+        pos += 2 + l
+    if pos != len(sig):
+        return None
+    return vals[0], vals[1]
